@@ -232,7 +232,9 @@ def run(repo, rep, tier):
     rep.ob("C06.R4", rz, "zip form: every member stored under its member name", ok, "", key="C06.R4@zip")
     ok = "self._store_blob(package_filename, blob)" in U(rp) and "self._read_objects_from_zipfile(zipf)" in U(rp) and "self._read_objects_from_package(sub_filepath)" in U(rp)
     rep.ob("C06.R4", rp, "package form: files stored under their path inside the package; Index.zip read like the zip form", ok, "", key="C06.R4@package")
-    ok = "index.zip" in U(rz).lower() and "self._read_objects_from_zipfile(self._open_zipfile(index_data))" in U(rz)
+    from ..symexec import resolve_single
+    rec = [c for c in body_walk(rz) if isinstance(c, ast.Call) and U(c.func) == "self._read_objects_from_zipfile" and len(c.args) == 1]
+    ok = "index.zip" in U(rz).lower() and len(rec) == 1 and U(resolve_single(rz, rec[0].args[0])).replace(" ", "") in ("self._open_zipfile(BytesIO(blob))", "self._open_zipfile(BytesIO(self._read_zip_member(zipf,filename)))")
     rep.ob("C06.R4", rz, "nested Index.zip handled in the zip form", ok, "", key="C06.R4@nested-zip")
     rep.floor("C06.R1", 9)
     rep.floor("C06.R2", 4)
